@@ -24,7 +24,9 @@ RULE = ("scripts of 4-16 ops over open/set-authority/release on one Controller (
         "highest gates of a region OR a release of a non-holder); distinct by hash.")
 TRUSTED = ["hook cesium/internal/control/export_verif.go (VerifDump: read-only copy of regions/gates)",
            "harness resource = counter of OpenResource calls, so Transfer.Resource identifies the region",
-           "harness never calls SetAuthority/Release/Authorize on a released gate (use-after-release is not modelled)"]
+           "harness never calls SetAuthority/Release/Authorize on a released gate (use-after-release is not modelled)",
+           "concurrent phase: logical clock stamps taken around each call; resources numbered inside OpenResource "
+           "(under the controller lock); Go race detector"]
 ASSUMES = ["time stamps in [0, 2^63-1] (int64 overflow of Span()/Start differences not modelled)",
            "region.counter below 2^64", "operations on gates the caller has released are outside the quantifier"]
 PARTIAL = ("the concurrent clause is proved for every interleaving of ATOMIC open/set-authority/release/authorize steps; "
@@ -426,4 +428,7 @@ LEVEL_NOTE = ("Trusted: Coq kernel/vm_compute; hand-written model (tied by corre
               "linearizability of recorded histories checked in Coq). Use of a gate after its release and int64 overflow of "
               "time-stamp differences are outside the model. F14 (gate spanning two regions left an orphan holder) was "
               "reproduced by this check on the unfixed tree and repaired by fix: commit 5e5f468; "
-              "C05_upstream_open_refuted keeps the witness. All theorems closed under the global context.")
+              "C05_upstream_open_refuted keeps the witness. F62 (release of the last gate not atomic with the removal of "
+              "its region: a concurrent OpenGate was attached to a resource already handed back for disposal; in cesium "
+              "the new controlling writer got a closed domain writer) was found by the concurrent phase and repaired by "
+              "fix: commit 4321b37. All theorems closed under the global context.")
